@@ -314,6 +314,26 @@ def run(repo: Repo, chk: Check) -> None:
     chk.minimum('base58_encode call sites with static length', known, 15)
     chk.exhaustive = True
 
+    # ---- who may write the table: the rows decided above are the rows of the literal; nothing may add, change or drop rows afterwards ----------
+    writers = []
+    for mi2 in repo.modules.values():
+        for n in ast.walk(mi2.tree):
+            tgt = None
+            if isinstance(n, ast.Call) and isinstance(n.func, ast.Attribute) and n.func.attr in ('append', 'extend', 'insert', 'remove', 'pop', 'clear', 'sort', 'reverse', '__setitem__', '__iadd__'):
+                tgt = n.func.value
+            elif isinstance(n, (ast.AugAssign, ast.AnnAssign)) and not (mi2.name == ENC and isinstance(n.target, ast.Name) and isinstance(n, ast.AnnAssign)):
+                tgt = n.target
+            elif isinstance(n, ast.Assign):
+                tgt = next((t.value if isinstance(t, ast.Subscript) else None for t in n.targets if isinstance(t, ast.Subscript)), None)
+            elif isinstance(n, ast.Delete):
+                tgt = next((t.value for t in n.targets if isinstance(t, ast.Subscript)), None)
+            d = dotted(tgt) if tgt is not None else None
+            if d and repo.canonical(repo.resolve_name(mi2, d)) == f'{ENC}.base58_encodings':
+                writers.append(f'{mi2.relpath}:{n.lineno}')
+    chk.ob('R-FLOW', f'{ENC}.base58_encodings', not writers, 'the table is written nowhere but in its literal', repo.module(ENC).relpath, {'writers': writers},
+           what=f'base58_encodings is modified at {writers[:3]}: rows added or changed at import time escape the prefix / length / ambiguity decisions made on the literal '
+                '(a kind registered with the binary prefix of another kind encodes to the same strings)')
+
     # ---- memory across calls (shared rule, sa/statelint.py) ----------------------------------------------------------------------------------
     chk.set_clause('C09.M')
     from ..statelint import check_memory
